@@ -197,6 +197,12 @@ def gen_C09(v, n):
                 if j != i:
                     segs[j] = "*"
             out.append(_op("C09", {"tree": True, "leaves": ls, "s": "/".join(segs), "index": i}))
+        # '>' followed by '**': the unfolded forms have several depths (leaf types of different depth), '>' at one position
+        for _ in range(3):
+            segs = rng.choice(ls).split("/")
+            if len(segs) > 4:
+                i = rng.randrange(2, len(segs) - 1)
+                out.append(_op("C09", {"tree": True, "leaves": ls, "s": "/".join(segs[:i] + [">", "**"]), "index": i}))
         # one typed search of an alias search already served (its Finder chosen and cached), a FindInAll of
         # another configuration name used in between, then the alias search: still one answer per group
         extra, pairs = lopsided(v, leaves)
@@ -610,6 +616,16 @@ def gen_C10(v, n):
                     continue
                 rules.append({"kind": "literal", "s": "/".join(segs), "i": i, "v": val,
                               "lit": "/".join(segs[:i] + [val] + segs[i + 1:])})
+        for label, fields in leaves[:2]:
+            cs = families.confusable_sibling(v, label, fields, with_or=True)
+            if cs:
+                sib_s = "/".join(val for _, val in cs[0])
+                if sib_s not in ls:
+                    ls.append(sib_s)
+                for s_or in cs[2]:
+                    segs_or = s_or.split("/")
+                    i_or = next(i for i, x in enumerate(segs_or) if "," in x)
+                    rules.append({"kind": "or", "s": s_or, "alts": ["/".join(segs_or[:i_or] + [a] + segs_or[i_or + 1:]) for a in segs_or[i_or].split(",")]})
         out.append(_op("C10", {"leaves": ls, "rules": rules}))
     return out
 
@@ -628,7 +644,14 @@ def gen_C17(v, n):
             continue    # files differing only by extension share one sidecar (the statement's carve-out)
         def attrs():
             return [kv for kv in families._attr_data(rng) if kv[0] not in ("sid", "a b")] or [["comment", '"x"']]
-        out.append(_op("C17", {"sid": ls[0], "other": ls[1], "old": None if rng.random() < 0.4 else attrs(), "new": attrs()}))
+        forms = ["kw", "attr+kw", "update", "attr"]
+        form = forms[len(out) % len(forms)]
+        new = attrs()
+        if form == "attr+kw":      # an explicit attribute AND keywords in one call
+            new = (new + [[k, val] for k, val in [["frames", "25"], ["reviewer", '"Ann"']] if k not in dict(new)])[:max(2, len(new))]
+        elif form == "attr":
+            new = new[:1]
+        out.append(_op("C17", {"sid": ls[0], "other": ls[1], "old": None if rng.random() < 0.4 else attrs(), "new": new, "form": form}))
     return out
 
 
